@@ -46,7 +46,7 @@ def gen_case(rng, tier):
             boundary, kind = b, kind + '+b'
     return dict(sig=sig, fs=fs, f_range=(lo, hi), boundary=boundary,
                 first_extrema=[None, 'peak', 'trough'][int(rng.integers(0, 3))], filter_kwargs=fk,
-                pad=pad, family=kind, sig_view=[None, None, None, 'strided', 'readonly', 'reversed'][int(rng.integers(0, 6))])
+                pad=pad, family=kind, history=[None, None, {'n_cycles': 1}, {'n_seconds': 0.5 / hi}, {'n_cycles': 9}][int(rng.integers(0, 5))], sig_view=[None, None, None, 'strided', 'readonly', 'reversed'][int(rng.integers(0, 6))])
 
 
 def one(sh, case, driver='generated'):
@@ -58,6 +58,15 @@ def one(sh, case, driver='generated'):
     t0 = attach.COUNTS['C02:windows_with_ties']
     o0 = attach.COUNTS['C02:windows_offcentre']
     res = None
+    if case.get('history'):
+        # call history: the same band was analysed before in this process with a much shorter (or longer) filter
+        try:
+            with quiet():
+                find_extrema(pipeline.as_view(case['sig'], None), case['fs'], tuple(case['f_range']), filter_kwargs=dict(case['history']),
+                             boundary=0, pad=case['pad'])
+            sh.note('earlier_call_on_the_same_band:' + ','.join(case['history']))
+        except Exception:
+            sh.note('earlier_call_raised')
     try:
         with quiet():
             res = find_extrema(pipeline.as_view(case['sig'], case.get('sig_view')), case['fs'], tuple(case['f_range']), **kw)
